@@ -17,7 +17,9 @@ DIALECTS = {
     # libaldor: `^: (Integer, MachineInteger) -> Integer`; the empty list is `empty`; `error` writes its
     # message to the standard error stream; arrays are 0-based there and are not rendered in this dialect
     "libaldor": {"header": ['#include "aldor"', '#include "aldorio"', "SI ==> MachineInteger;\nBI ==> Integer;"],
-                 "print": "stdout", "nil": "empty", "pow_bi_exp": False},
+                 "print": "stdout", "nil": "empty", "pow_bi_exp": False,
+                 # libaldor has no base category Exception: an exception type is a plain category (cf. sal_gener.as)
+                 "exn_cat": "with"},
 }
 
 
@@ -157,7 +159,7 @@ class Renderer(object):
             return "{ " + self.body_items(x) + " }"
         if e == "call":
             f = self.p["funs"][x["fi"] - 1]
-            return "%s(%s)" % (self.nm(f["name"]), ", ".join(self.ex(a) for a in x["args"]))
+            return "%s(%s)" % (self.nm(f.get("oname", f["name"])), ", ".join(self.ex(a) for a in x["args"]))
         if e == "callv":
             return "(%s)(%s)" % (self.ex(x["f"]), ", ".join(self.ex(a) for a in x["args"]))
         if e == "print":
@@ -219,6 +221,12 @@ class Renderer(object):
             return "return %s" % self.ex(x["v"])
         if e == "yield":
             return "yield %s" % self.ex(x["v"])
+        if e == "throw":
+            return "throw %s" % x["exn"]
+        if e == "try":
+            hs = "; ".join("E has %s => %s" % (h["exn"], self.ex(h["body"])) for h in x["hs"])
+            fin = "" if x["fin"].get("e") == "none" else " finally %s" % self.ex(x["fin"])
+            return "(try %s catch E in { %s; true => throw E; never }%s)" % (self.ex(x["body"]), hs, fin)
         if e == "error":
             return "error %s" % esc(x.get("msg", "halt"))
         raise ValueError(e)
@@ -285,6 +293,9 @@ class Renderer(object):
         imports += ["R%d" % i for i in range(len(p.get("recs", [])))]
         imports += ["U%d" % i for i in range(len(p.get("uns", [])))]
         out.append("import from %s;" % ", ".join(imports))
+        for ex in p.get("exns", []):
+            out.append("define %s: Category == %s;" % (ex, self.D.get("exn_cat", "Exception with")))
+            out.append("define %s: %s@Category == add;" % (ex, ex))
         # functions are emitted where they were created relative to the top-level forms: progen
         # appends functions in creation order and only calls earlier ones, so all functions that a
         # form uses exist before it.  Globals a function mentions must precede it: emit each
@@ -300,7 +311,7 @@ class Renderer(object):
         for kind, i, f in forms:
             if kind == "fun":
                 ps = ", ".join("%s: %s" % (self.nm(a), tname(t)) for a, t in zip(f["ps"], f["pts"]))
-                texts.append(("f", i, "%s(%s): %s == { %s%s }" % (self.nm(f["name"]), ps, tname(f["rt"]),
+                texts.append(("f", i, "%s(%s): %s == { %s%s }" % (self.nm(f.get("oname", f["name"])), ps, tname(f["rt"]),
                                                                   self.free_decl(f["body"], f["ps"]), self.body_items(f["body"]))))
             elif f["d"] == "var":
                 texts.append(("t", i, "%s: %s := %s;" % (self.nm(f["x"]), tname(f["t"]), self.ex(f["init"]))))
@@ -321,6 +332,95 @@ def render_forms(prog, names=None, dialect=None):
     """One text per top-level form, for feeding a program form by form to the interactive loop:
     returns (preamble_lines, [(kind, index, text)]), see Renderer.parts."""
     return Renderer(prog, names, dialect).parts()
+
+
+# ---- separate compilation (C05): one abstract program rendered as a library unit and a client unit ----
+
+def _fun_refs(body, bound):
+    """(free variable names, called function indices (0-based)) of a function body; bound = names bound so far."""
+    free, calls = set(), set()
+
+    def walk(x, bnd):
+        if isinstance(x, dict):
+            e = x.get("e")
+            if e == "var":
+                if x["x"] not in bnd:
+                    free.add(x["x"])
+                return
+            if e == "asg":
+                if x["x"] not in bnd:
+                    free.add(x["x"])
+                walk(x["v"], bnd)
+                return
+            if e == "call":
+                calls.add(x["fi"] - 1)
+            if e == "let":
+                walk(x["v"], bnd)
+                walk(x["body"], bnd | {x["x"]})
+                return
+            if e in ("for", "forin"):
+                for k, v in x.items():
+                    if k != "body":
+                        walk(v, bnd)
+                walk(x["body"], bnd | {x["x"]})
+                return
+            if e == "lam":
+                walk(x["body"], bnd | set(x["ps"]))
+                return
+            for v in x.values():
+                walk(v, bnd)
+        elif isinstance(x, list):
+            for v in x:
+                walk(v, bnd)
+    walk(body, set(bound))
+    return free, calls
+
+
+def lib_eligible(prog):
+    """Indices (0-based, ascending) of the functions that can be moved into a library unit: they mention no
+    file-level variable (an exported function must not capture variables of the client) and call only functions
+    that can be moved as well."""
+    info = {}
+    for i, f in enumerate(prog["funs"]):
+        free, calls = _fun_refs(f["body"], f["ps"])
+        info[i] = (free, calls)
+    ok = set(i for i, (free, _) in info.items() if not free)
+    changed = True
+    while changed:
+        changed = False
+        for i in sorted(ok):
+            if not info[i][1] <= ok:
+                ok.discard(i)
+                changed = True
+    return sorted(ok)
+
+
+def lib_closure(prog, funs):
+    """The given function indices together with everything they call (transitively)."""
+    out = set(funs)
+    todo = list(funs)
+    while todo:
+        i = todo.pop()
+        f = prog["funs"][i]
+        for j in _fun_refs(f["body"], f["ps"])[1]:
+            if j not in out:
+                out.add(j)
+                todo.append(j)
+    return sorted(out)
+
+
+def render_split(prog, lib_funs, libref="plib.ao", libid="PLib", names=None, dialect=None):
+    """(library unit text, client unit text): the functions lib_funs (0-based indices, closed under calls, all in
+    lib_eligible(prog)) are defined in the library unit; the client unit holds every other form in the original
+    order and imports the library (`#library <libid> "<libref>"`; libref = "x.ao", or "x" for libx.al on the
+    library path).  Type macros and imports are repeated in both units."""
+    r = Renderer(prog, names, dialect)
+    pre, texts = r.parts()
+    lib = set(lib_funs)
+    lib_text = "\n".join(pre + [t for (k, i, t) in texts if k == "f" and i in lib]) + "\n"
+    head = [pre[0], '#library %s "%s"' % (libid, libref), "import from %s;" % libid] + pre[1:]
+    client_text = "\n".join(head + [t for (k, i, t) in texts if not (k == "f" and i in lib)]) + "\n"
+    return lib_text, client_text
 
 
 def expected_text(out_atoms):
